@@ -89,6 +89,11 @@ pub fn c02_node(b: &BoardState, p: &Pos, succ: &[BoardState], check_key: bool) -
                     if promotes { "is a promotion and needs one of q/r/b/n" } else { "does not promote" }
                 ));
             }
+            // the board may still be the position after some legal move: then the successor is
+            // right and its descriptor names another move - a descriptor defect (C02)
+            if let Some(m) = legal.iter().find(|m| diff_board(s, &p.apply(m)).is_empty()) {
+                return Err(format!("successor of '{}' is the position after {} but its descriptor names {}", p.fen(), mv_name(m), mv_name(&d)));
+            }
             continue;
         }
         let want = p.apply(&d);
